@@ -5,6 +5,7 @@ package provider
 // Contracts for the sweeping provider (property C17). Comment-only.
 
 /*@
+immutable field SweepingProvider.peerid
 immutable "github.com/libp2p/go-libp2p-kad-dht/provider.ErrClosed"
 axiom errclosed_nonnil: ErrClosed != nil
 immutable field SweepingProvider.reprovideInterval
@@ -405,4 +406,52 @@ func (s *SweepingProvider) provideKeysToPeer(p peer.ID, batches [][]mh.Multihash
   ghost at before call(SendMessage): assert($arg1 == p && $arg2 == pmes && pmes.Key == mh)
   ghost at call(SendMessage): $sent = $sent + 1; $fail = $fail + ite($ret0 != nil, 1, 0)
   ghost at before call(addProvidedRecords): assert($arg0 == $sent - $fail)
+
+# ---- catching up with late regions (C17, C14) --------------------------------------
+# every region taken off the reprovide queue is handed to a worker that
+# reprovides exactly that region; a pool slot that was acquired is released on
+# every path; the loop reports to the wait group on every exit and each worker
+# is counted before it starts
+func (s *SweepingProvider) reprovideLateRegions()
+  props C17 C14
+  ghostvar $acq int = 0
+  ghostvar $rel int = 0
+  ghostvar $started int = 0
+  ghostvar $p bitstr.Key = any
+  ghostvar $got bool = false
+  modifies *
+  ensures [accounted] tagged("wgdone:s.wg")
+  ensures [every-acquired-slot-is-released-or-handed-to-a-worker] $acq == $rel + $started
+  loop 0 invariant $acq == $rel + $started
+  ghost at call(Acquire): $acq = $acq + ite($ret0 == nil, 1, 0)
+  ghost at call(Release): $rel = $rel + 1
+  ghost at call(Dequeue): $p = $ret0; $got = $ret1
+  ghost at go(func): assert($got && $arg0 == $p && wgcount(s.wg) == 1); $started = $started + 1
+
+funclit 0 in (s *SweepingProvider) reprovideLateRegions()
+  props C17 C14
+  ghostvar $done bool = false
+  ensures [accounted] tagged("wgdone:s.wg")
+  ghost at before call(batchReprovide): assert($arg0 == prefix)
+  ghost at call(batchReprovide): $done = true
+  ghost at before call(Release): assert($done && $arg0 == burstWorker)
+
+# ---- a single-key provide (C17) --------------------------------------------------
+# the key is advertised, with the node's id and current addresses, to exactly
+# the peers the router returned for THAT key
+func (s *SweepingProvider) vanillaProvide(k mh.Multihash, reprovide bool) (bitstr.Key, error)
+  props C17
+  ghostvar $peers []peer.ID = nil
+  ghostvar $gerr error = nil
+  ghostvar $serr error = nil
+  ghostvar $sent bool = false
+  ghostvar $addrs []ma.Multiaddr = nil
+  modifies *
+  ensures [send-error-reported] imp($gerr != nil, result1 != nil) && imp($sent, result1 == $serr)
+  loop 0 invariant keysAllocations != nil && len(keys) == 1 && keys[0] == k && all(j, 0, $key, has(keysAllocations, peers[j]) && len(keysAllocations[peers[j]]) == 1 && keysAllocations[peers[j]][0] == keys)
+  ghost at before call(GetClosestPeers): assert($arg1 == str(k))
+  ghost at call(GetClosestPeers): $peers = $ret0; $gerr = $ret1
+  ghost at call(getSelfAddrs): $addrs = $ret0
+  ghost at before call(sendProviderRecords): assert($gerr == nil && $arg1.ID == s.peerid && $arg1.Addrs == $addrs && $arg2 == 1); assert($peers == peers && $arg0 == keysAllocations); assert(all(j, 0, len(peers), has(keysAllocations, peers[j]) && len(keysAllocations[peers[j]]) == 1 && keysAllocations[peers[j]][0] == keys))
+  ghost at call(sendProviderRecords): $serr = $ret1; $sent = true
 @*/
